@@ -19,7 +19,8 @@ type c18Get struct {
 }
 
 type c18Case struct {
-	Rt        string     `json:"rt"`   // restorenext | next
+	Rt        string     `json:"rt"`   // restorenext | next | slowinit (still initialising when the restore comes) | busy (working on an invocation when it comes)
+	BusyMs    int        `json:"busyMs,omitempty"`
 	Hook      string     `json:"hook"` // ok | rerr | initerr | stall | exit
 	HookMs    int        `json:"hookMs"`
 	TimeoutMs int        `json:"timeoutMs"`
@@ -35,6 +36,10 @@ func (c *c18Case) scenario() *Scenario {
 	var rt []Step
 	if c.Rt == "next" {
 		rt = []Step{{Op: "rt.loop"}}
+	} else if c.Rt == "slowinit" {
+		rt = []Step{{Op: "sleep", Ms: c.BusyMs}, {Op: "rt.loop"}}
+	} else if c.Rt == "busy" {
+		rt = []Step{{Op: "rt.next", Tag: "B", Signal: []string{"B.got"}}, {Op: "sleep", Ms: c.BusyMs}, {Op: "rt.response", ID: "cur", BodyMode: "transform", Tag: "B"}, {Op: "rt.loop"}}
 	} else {
 		rt = []Step{{Op: "rt.restorenext", Tag: "rn"}}
 		switch c.Hook {
@@ -55,7 +60,16 @@ func (c *c18Case) scenario() *Scenario {
 	if c.Rt == "next" {
 		want = "Ready"
 	}
+	if c.Rt == "busy" {
+		want = "Ready"
+	}
+	if c.Rt == "slowinit" {
+		want = "Started"
+	}
 	drv := []Step{{Op: "waitstate", Who: "runtime", State: want, Ms: 4000}, {Op: "sleep", Ms: 10}}
+	if c.Rt == "busy" {
+		drv = append(drv, Step{Op: "invoke", Tag: "B", Async: true, Payload: &kit.Blob{Len: 11, Seed: 5, Kind: "ascii"}}, Step{Op: "await", Name: "B.got", Ms: 4000}, Step{Op: "sleep", Ms: 10})
+	}
 	gets := func(when string) {
 		for i, g := range c.Gets {
 			if g.When == when {
@@ -70,7 +84,10 @@ func (c *c18Case) scenario() *Scenario {
 		drv = append(drv, Step{Op: "restore", Tag: "r2", Ms: c.TimeoutMs, Creds: c.Creds[2]})
 		gets("after2")
 	}
-	if c.Rt == "next" || (c.Hook == "ok" && c.HookMs < c.TimeoutMs-60) {
+	if c.Rt == "busy" {
+		drv = append(drv, Step{Op: "join", Tag: "B"})
+	}
+	if c.Rt == "next" || c.Rt == "slowinit" || c.Rt == "busy" || (c.Hook == "ok" && c.HookMs < c.TimeoutMs-60) {
 		drv = append(drv, Step{Op: "invoke", Tag: "F", Payload: &kit.Blob{Len: 14, Seed: 2, Kind: "ascii"}})
 	}
 	sc.Driver = drv
@@ -103,14 +120,14 @@ func c18Check(c c18Case) (out kit.Outcome) {
 	out.Artifacts = run.diag()
 	out.Sample = c
 	out.Label("rt:" + c.Rt)
-	if c.Rt != "next" {
+	if c.Rt == "restorenext" {
 		out.Label("hook:" + c.Hook)
 	}
 	nOps := len(c.Gets) + 1
 	if c.Second {
 		nOps++
 	}
-	out.Nontrivial = (c.Rt == "restorenext" && c.Hook != "ok") || nOps >= 3 || (c.Hook == "ok" && c.HookMs >= c.TimeoutMs-c18Margin)
+	out.Nontrivial = c.Rt == "slowinit" || c.Rt == "busy" || (c.Rt == "restorenext" && c.Hook != "ok") || nOps >= 3 || (c.Hook == "ok" && c.HookMs >= c.TimeoutMs-c18Margin)
 	if run.Died {
 		out.Violate("C18/host-died/"+panicKind(run.Stderr), "emulator process died: %s", panicLine(run.Stderr))
 		return out
@@ -203,9 +220,13 @@ func c18Check(c c18Case) (out kit.Outcome) {
 		return true
 	}
 	switch {
-	case c.Rt == "next":
+	case c.Rt == "next" || c.Rt == "slowinit" || c.Rt == "busy":
+		doing := map[string]string{"next": "it waits for an invocation", "slowinit": fmt.Sprintf("it is still initialising, for %d ms", c.BusyMs), "busy": fmt.Sprintf("it is working on an invocation, for %d ms", c.BusyMs)}[c.Rt]
 		if r1.Err != "" || r1.DurMs > 1000 {
-			out.Violate("C18/restore-not-interested", "the runtime never entered the restore poll; restore returned %q after %.0f ms, expected success at once", r1.Err, r1.DurMs)
+			out.Violate("C18/restore-not-interested", "the runtime never entered the restore poll (%s); restore returned %q after %.0f ms, expected success at once", doing, r1.Err, r1.DurMs)
+			return out
+		}
+		if c.Rt == "busy" && !expectOK(&out, "C18", tr, "B", kit.Blob{Len: 11, Seed: 5, Kind: "ascii"}) {
 			return out
 		}
 	case c.Hook == "stall":
@@ -307,7 +328,8 @@ func c18Check(c c18Case) (out kit.Outcome) {
 }
 
 func c18Gen(t *rapid.T) c18Case {
-	c := c18Case{Rt: rapid.SampledFrom([]string{"restorenext", "restorenext", "restorenext", "next"}).Draw(t, "rt"),
+	c := c18Case{Rt: rapid.SampledFrom([]string{"restorenext", "restorenext", "restorenext", "restorenext", "restorenext", "next", "slowinit", "busy"}).Draw(t, "rt"),
+		BusyMs: rapid.SampledFrom([]int{1300, 1800}).Draw(t, "busy"),
 		Hook:      rapid.SampledFrom([]string{"ok", "ok", "rerr", "initerr", "stall", "exit"}).Draw(t, "hook"),
 		TimeoutMs: rapid.SampledFrom([]int{100, 300}).Draw(t, "timeout"), Second: rapid.IntRange(0, 2).Draw(t, "second") == 0}
 	switch rapid.IntRange(0, 3).Draw(t, "timing") {
@@ -351,6 +373,8 @@ func c18Fixed() []c18Case {
 	}
 	out = append(out, c18Case{Rt: "restorenext", Hook: "ok", HookMs: 260, TimeoutMs: 100, Creds: cr},
 		c18Case{Rt: "next", Hook: "ok", TimeoutMs: 100, Creds: cr, Second: true, Gets: g},
+		c18Case{Rt: "slowinit", BusyMs: 1300, Hook: "ok", TimeoutMs: 300, Creds: cr, Gets: g},
+		c18Case{Rt: "busy", BusyMs: 1300, Hook: "ok", TimeoutMs: 100, Creds: cr, Second: true, Gets: g},
 		c18Case{Rt: "restorenext", Hook: "rerr", HookMs: 10, TimeoutMs: 300, ErrType: "xRuntime.Ab junk", Creds: cr},
 		c18Case{Rt: "restorenext", Hook: "rerr", HookMs: 10, TimeoutMs: 300, ErrType: "Runtime.Hook_Failed", Creds: cr},
 		c18Case{Rt: "restorenext", Hook: "initerr", HookMs: 10, TimeoutMs: 300, ErrType: "Function.Out[Of]Memory", Creds: cr})
